@@ -385,7 +385,11 @@ def injection_stage(ctx):
         data, _ = images.build(fmt, {'footer': {}} if fmt == 'vmdk' else {}, rnd)
         base = insp.run(fi.ALL_FORMATS[fmt], data, [len(data)])
         if base['verdict'][0] != 'ok':
-            raise MachineryError('clean %s image is not accepted: %s' % (fmt, base['verdict']))
+            # "a clean image of every format other than QED is accepted" is a clause of the property
+            ctx.violation({'kind': 'clean-image-not-accepted', 'fmt': fmt, 'got': base['verdict'][0]},
+                          {'format': fmt, 'verdict': list(base['verdict'])},
+                          'a clean %s image is not accepted: %s' % (fmt, base['verdict']))
+            continue
         names = list(base['insp']._safety_checks)
         for name in names:
             for exc in EXC_TYPES:
